@@ -64,6 +64,9 @@ impl Prop for C13 {
     fn id(&self) -> &'static str {
         "C13"
     }
+    fn fuzz_target(&self) -> Option<&'static str> {
+        Some("tape")
+    }
     fn rule(&self) -> String {
         "batches of 1-6 expressions grown from one pool (so they share sub-terms), a permutation of the batch and both cache containers; in one Context: result alone (fresh simplifier) == result inside the batch in permuted order (sparse cache) == same with dense cache; simplify(result) == result with the same and with a fresh instance; simplifying a root twice with one instance gives the same reference. Termination: each case runs on its own thread under a 10 s watchdog (typical < 1 ms), re-run alone with 60 s before being declared non-terminating. Non-trivial: batch of >= 2 roots sharing a non-leaf sub-term with >= 1 root changed by simplification; distinct by hash of the batch.".into()
     }
